@@ -104,6 +104,36 @@ def _body_items(prog, g, depth):
                     item = ("elem",) if item[1] >= 2 else None
                 if item is not None:
                     out.append(item)
+    # `matches!(p.name, RecordName::A | RecordName::B)`: a switch on the discriminant of a `.name` place whose listed
+    # variants reach `true`
+    variants = [v["name"] for v in prog.adts["record::RecordName"]["variants"]] if "record::RecordName" in getattr(prog, "adts", {}) else []
+    if variants and "bool" in g.ret_ty():
+        for bi in g.cfg():
+            t = g.blocks[bi]["term"]
+            if t["k"] != "switch" or op_place(t["discr"]) is None:
+                continue
+            d = strip(Rg.place(op_place(t["discr"])))
+            if not (d[0] == "discr" and strip(d[1])[0] == "field" and strip(d[1])[2] == "name"):
+                continue
+
+            def yields_true(b, hops=0):
+                for _ in range(6):
+                    for st in g.blocks[b]["stmts"]:
+                        if st["place"]["local"] == 0 and not st["place"]["proj"] and st["rv"]["k"] == "use" and st["rv"]["op"].get("k") == "const":
+                            return str(st["rv"]["op"].get("bits")) == "1"
+                    tt = g.blocks[b]["term"]
+                    if tt["k"] == "goto":
+                        b = tt["target"]
+                    else:
+                        return None
+                return None
+            for v, succ in t["targets"]:
+                try:
+                    nm_ = variants[int(v)]
+                except (ValueError, IndexError):
+                    continue
+                if yields_true(succ) is True:
+                    out.append(nm_)
     return out
 
 
